@@ -28,7 +28,7 @@ theorem C12_source_queue_LinkageHeap_children : Gen.bodyHash "queue.rs::LinkageH
 theorem C12_source_active_Active_contains : Gen.bodyHash "active.rs::Active::contains" = some 654886494140433379 := by decide
 theorem C12_source_active_Active_remove : Gen.bodyHash "active.rs::Active::remove" = some 386005549530244905 := by decide
 theorem C12_source_active_Active_iter : Gen.bodyHash "active.rs::Active::iter" = some 515319513971985362 := by decide
-theorem C12_source_active_Active_range : Gen.bodyHash "active.rs::Active::range" = some 991926060293893991 := by decide
+theorem C12_source_active_Active_range : Gen.bodyHash "active.rs::Active::range" = some 148316777747368857 := by decide
 theorem C12_source_active_ActiveIter_next : Gen.bodyHash "active.rs::ActiveIter::next" = some 1007075780930307687 := by decide
 theorem C12_source_active_ActiveRange_next : Gen.bodyHash "active.rs::ActiveRange::next" = some 547352909114454429 := by decide
 theorem C12_source_chain_nnchain_with : Gen.bodyHash "chain.rs::nnchain_with" = some 106125546475694288 := by decide
